@@ -207,30 +207,157 @@ def copy_propagate(fn):
         fn.body[i] = P().visit(st)
 
 
-def normalise_helpers(tree):
-    """Source normalisation ahead of the flow rules, per class:
-    (1) `self.m(args)` anywhere, m a method whose body is a single `return <expr>`: replaced by that expression;
-    (2) a statement `self.m(args)`, m guard-like (only tests, raise, return None) or a private procedure (`_name`, no value
-        returned): replaced by m's body, returns eliminated by nesting, parameters substituted;
-    (3) locals bound once to an access path are replaced by the path (copy_propagate).
-    A guard, a gate, a publication or a registry store moved into a helper, or reached through a local alias, is then the
-    same guard / gate / publication / store for every rule."""
-    for cls in [n for n in ast.walk(tree) if isinstance(n, ast.ClassDef)]:
-        meths = {m.name: m for m in cls.body if isinstance(m, FUNCS)}
-        expr_h = {n: m for n, m in meths.items() if _simple_sig(m) and len(_body_sans_doc(m)) == 1 and isinstance(_body_sans_doc(m)[0], ast.Return)
-                  and _body_sans_doc(m)[0].value is not None and not n.startswith("__")}
-        proc_h = {n: m for n, m in meths.items() if _simple_sig(m) and n not in expr_h and not n.startswith("__")
-                  and (_guard_like(m) or (n.startswith("_") and _procedure_like(m)))}
+def _namedtuple_fields(trees):
+    """name -> field list for module-level `X = namedtuple("X", [...])` / `class X(NamedTuple): a: T ...` definitions"""
+    out = {}
+    for tree in trees:
+        for st in tree.body:
+            if isinstance(st, ast.Assign) and len(st.targets) == 1 and isinstance(st.targets[0], ast.Name) and isinstance(st.value, ast.Call) \
+                    and unp(st.value.func).split(".")[-1] == "namedtuple" and len(st.value.args) >= 2:
+                try:
+                    f = ast.literal_eval(st.value.args[1])
+                except (ValueError, SyntaxError):
+                    continue
+                out[st.targets[0].id] = f.replace(",", " ").split() if isinstance(f, str) else list(f)
+            elif isinstance(st, ast.ClassDef) and any(unp(b_).split(".")[-1] == "NamedTuple" for b_ in st.bases):
+                out[st.name] = [x.target.id for x in st.body if isinstance(x, ast.AnnAssign) and isinstance(x.target, ast.Name)]
+    return out
+
+
+def _tuple_elements(e, nt_fields):
+    """element expressions of a tuple display or of a namedtuple construction (positional and keyword arguments in field order)"""
+    if isinstance(e, (ast.Tuple, ast.List)):
+        return list(e.elts)
+    if isinstance(e, ast.Call) and isinstance(e.func, ast.Name) and e.func.id in nt_fields and not any(isinstance(a, ast.Starred) for a in e.args):
+        fields = nt_fields[e.func.id]
+        vals = dict(zip(fields, e.args))
+        for k in e.keywords:
+            if k.arg is None:
+                return None
+            vals[k.arg] = k.value
+        return [vals[f] for f in fields] if set(vals) == set(fields) else None
+    return None
+
+
+def _value_helper(m, is_method):
+    """straight-line statements followed by one final `return <expr>` (no other return): a call whose value is assigned can be
+    replaced by the statements and an assignment of the returned expression"""
+    body = _body_sans_doc(m)
+    if len(body) < 2 or not isinstance(body[-1], ast.Return) or body[-1].value is None or not _simple_sig(m):
+        return False
+    for st in body[:-1]:
+        for x in ast.walk(st):
+            if isinstance(x, (ast.Return, ast.For, ast.While, ast.Try, ast.With) + FUNCS + (ast.ClassDef, ast.Lambda)):
+                return False
+    return True
+
+
+def _locals_of(m):
+    out = []
+    for x in ast.walk(m):
+        if isinstance(x, ast.Name) and isinstance(x.ctx, ast.Store) and x.id not in out:
+            out.append(x.id)
+    return out
+
+
+def unroll_literal_loops(fn):
+    """`for a, b, c in TABLE: body` with TABLE a literal tuple / list of tuples (given in place or bound once in the function)
+    becomes the statements of the body for each row; `setattr(self, "name", v)` becomes `self.name = v`.  A parameter table
+    walked by a loop declares the same attributes as the statements it replaced."""
+    binds = {}
+    for st in fn.body:
+        if isinstance(st, ast.Assign) and len(st.targets) == 1 and isinstance(st.targets[0], ast.Name) and isinstance(st.value, (ast.Tuple, ast.List)):
+            binds.setdefault(st.targets[0].id, []).append(st.value)
+
+    def rows_of(it):
+        if isinstance(it, ast.Name) and len(binds.get(it.id, [])) == 1:
+            it = binds[it.id][0]
+        if isinstance(it, (ast.Tuple, ast.List)) and it.elts and len(it.elts) <= 64:
+            return list(it.elts)
+        return None
+
+    def rewrite(stmts):
+        res = []
+        for st in stmts:
+            for fld in ("body", "orelse", "finalbody"):
+                if isinstance(getattr(st, fld, None), list) and not isinstance(st, FUNCS + (ast.ClassDef,)):
+                    setattr(st, fld, rewrite(getattr(st, fld)))
+            if isinstance(st, ast.For) and not st.orelse and not any(isinstance(x, (ast.Break, ast.Continue)) for x in ast.walk(st)):
+                rows = rows_of(st.iter)
+                tg = st.target
+                names = [tg.id] if isinstance(tg, ast.Name) else [e.id for e in tg.elts] if isinstance(tg, (ast.Tuple, ast.List)) and all(isinstance(e, ast.Name) for e in tg.elts) else None
+                if rows is not None and names is not None:
+                    ok_rows = [r.elts if isinstance(tg, (ast.Tuple, ast.List)) and isinstance(r, (ast.Tuple, ast.List)) and len(r.elts) == len(names) else [r] if isinstance(tg, ast.Name) else None for r in rows]
+                    stored = {x.id for b_ in st.body for x in ast.walk(b_) if isinstance(x, ast.Name) and isinstance(x.ctx, ast.Store)}
+                    if all(r is not None for r in ok_rows) and not (stored & set(names)):
+                        for r in ok_rows:
+                            body = _subst_params(_clone_stmts(st.body), dict(zip(names, r)))
+                            _relocate(body, st)
+                            res.extend(body)
+                        continue
+            res.append(st)
+        return res
+    fn.body = rewrite(fn.body)
+    for x in ast.walk(fn):
+        for fld in ("body", "orelse", "finalbody"):
+            lst = getattr(x, fld, None)
+            if isinstance(lst, list):
+                for i, st in enumerate(lst):
+                    c = st.value if isinstance(st, ast.Expr) else None
+                    if isinstance(c, ast.Call) and isinstance(c.func, ast.Name) and c.func.id == "setattr" and len(c.args) == 3 and not c.keywords \
+                            and isinstance(c.args[1], ast.Constant) and isinstance(c.args[1].value, str) and c.args[1].value.isidentifier():
+                        new = ast.Assign(targets=[ast.Attribute(value=c.args[0], attr=c.args[1].value, ctx=ast.Store())], value=c.args[2])
+                        _relocate([new], st)
+                        lst[i] = new
+
+
+def normalise_helpers(tree, mod_funcs=None, mod_aliases=(), nt_fields=None):
+    """Source normalisation ahead of the flow rules:
+    (1) `self.m(args)` / `helper(args)` / `module.helper(args)` anywhere, the callee's body a single `return <expr>`: replaced by
+        that expression (a lambda in it keeps the captured parameters early-bound);
+    (2) a call STATEMENT of a guard-like callee (only tests, raise, return None) or of a private procedure (`_name`) or a
+        module-level procedure of the bus files: replaced by the body, returns eliminated by nesting;
+    (3) `T = helper(args)` with the callee straight-line code ending in one `return <expr>`: the body (its locals renamed) and
+        `T = <expr>`, a tuple target against a tuple / namedtuple construction split into single assignments;
+    (4) loops over a literal table unrolled, `setattr(self, "name", v)` turned into `self.name = v`;
+    (5) locals bound once to an access path replaced by the path (copy_propagate).
+    A guard, a gate, a publication, a registry store or a parameter declaration moved into a helper, a table or behind a
+    local alias is then the same construct for every rule."""
+    mod_funcs = mod_funcs or {}
+    nt_fields = nt_fields or {}
+    inlined_private = set()
+
+    def callee_of(c, cls_meths, m_name):
+        """-> (kind, def, drop_self) for a call node, or None"""
+        f = c.func
+        if c.keywords or any(isinstance(a, ast.Starred) for a in c.args):
+            return None
+        if isinstance(f, ast.Attribute) and isinstance(f.value, ast.Name) and f.value.id == "self" and f.attr in cls_meths and f.attr != m_name:
+            return cls_meths[f.attr], True
+        if isinstance(f, ast.Name) and f.id in mod_funcs and f.id != m_name:
+            return mod_funcs[f.id], False
+        if isinstance(f, ast.Attribute) and isinstance(f.value, ast.Name) and f.value.id in mod_aliases and f.attr in mod_funcs:
+            return mod_funcs[f.attr], False
+        return None
+
+    def process(owner_funcs, cls_meths):
+        expr_ok = lambda h: _simple_sig(h) and len(_body_sans_doc(h)) == 1 and isinstance(_body_sans_doc(h)[0], ast.Return) and _body_sans_doc(h)[0].value is not None \
+            and not h.name.startswith("__")
+        # methods: guard-like ones and private procedures; module-level functions: private ones, and public procedures that
+        # cannot raise (uros.check_nan stays a call: it raises, and a raise ends the run rather than a path through the callback)
+        has_raise = lambda h: any(isinstance(x, ast.Raise) for x in ast.walk(h))
+        proc_ok = lambda h, is_m: _simple_sig(h) and not expr_ok(h) and not h.name.startswith("__") and (
+            (_guard_like(h) or (h.name.startswith("_") and _procedure_like(h))) if is_m else
+            ((h.name.startswith("_") and (_guard_like(h) or _procedure_like(h))) or (_procedure_like(h) and not has_raise(h))))
         for _pass in range(2):
-            for m in [x for x in cls.body if isinstance(x, FUNCS)]:
+            for m in owner_funcs:
                 class E(ast.NodeTransformer):
                     def visit_Call(self, c):
                         self.generic_visit(c)
-                        f = c.func
-                        if isinstance(f, ast.Attribute) and isinstance(f.value, ast.Name) and f.value.id == "self" and f.attr in expr_h and f.attr != m.name \
-                                and not c.keywords and not any(isinstance(a, ast.Starred) for a in c.args):
-                            h = expr_h[f.attr]
-                            ps = [a.arg for a in h.args.args][1:]
+                        hit = callee_of(c, cls_meths, m.name)
+                        if hit and expr_ok(hit[0]):
+                            h, is_m = hit
+                            ps = [a.arg for a in h.args.args][1 if is_m else 0:]
                             if len(ps) == len(c.args):
                                 out = _subst_params([_clone_expr(_body_sans_doc(h)[0].value)], dict(zip(ps, c.args)))[0]
                                 _relocate([out], c)
@@ -244,21 +371,97 @@ def normalise_helpers(tree):
                             if isinstance(getattr(st, fld, None), list) and not isinstance(st, FUNCS + (ast.ClassDef,)):
                                 setattr(st, fld, rewrite(getattr(st, fld)))
                         c = st.value if isinstance(st, ast.Expr) else None
-                        if isinstance(c, ast.Call) and isinstance(c.func, ast.Attribute) and isinstance(c.func.value, ast.Name) and c.func.value.id == "self" \
-                                and c.func.attr in proc_h and c.func.attr != m.name and not c.keywords and not any(isinstance(a, ast.Starred) for a in c.args):
-                            h = proc_h[c.func.attr]
-                            ps = [a.arg for a in h.args.args][1:]
+                        hit = callee_of(c, cls_meths, m.name) if isinstance(c, ast.Call) else None
+                        if hit and proc_ok(*hit):
+                            h, is_m = hit
+                            ps = [a.arg for a in h.args.args][1 if is_m else 0:]
                             if len(ps) == len(c.args):
                                 body, _ = _without_returns(_clone_stmts(_body_sans_doc(h)))
                                 body = _subst_params(body, dict(zip(ps, c.args)))
                                 _relocate(body, st)
                                 res.extend(body or [ast.Pass(lineno=st.lineno, col_offset=st.col_offset)])
+                                if not is_m and h.name.startswith("_"):
+                                    inlined_private.add(h.name)
                                 continue
+                        # T = helper(args), helper straight-line code + one final return
+                        if isinstance(st, ast.Assign) and len(st.targets) == 1 and isinstance(st.value, ast.Call):
+                            hit = callee_of(st.value, cls_meths, m.name)
+                            if hit and _value_helper(hit[0], hit[1]):
+                                h, is_m = hit
+                                ps = [a.arg for a in h.args.args][1 if is_m else 0:]
+                                if len(ps) == len(st.value.args):
+                                    hb = _clone_stmts(_body_sans_doc(h))
+                                    ren = {nm: "_%s_%s" % (h.name.strip("_"), nm) for nm in _locals_of(h) if nm not in ps}
+
+                                    class R(ast.NodeTransformer):
+                                        def visit_Name(self, n):
+                                            if n.id in ren:
+                                                n.id = ren[n.id]
+                                            return n
+                                    hb = [R().visit(x) for x in hb]
+                                    hb = _subst_params(hb, dict(zip(ps, st.value.args)))
+                                    ret = hb[-1].value
+                                    out = hb[:-1]
+                                    tg = st.targets[0]
+                                    els = _tuple_elements(ret, nt_fields) if isinstance(tg, (ast.Tuple, ast.List)) else None
+                                    if els is not None and len(els) == len(tg.elts) and all(isinstance(e, (ast.Name, ast.Attribute)) for e in tg.elts):
+                                        out += [ast.Assign(targets=[e], value=v) for e, v in zip(tg.elts, els)]
+                                    else:
+                                        out.append(ast.Assign(targets=[tg], value=ret))
+                                    _relocate(out, st)
+                                    res.extend(out)
+                                    continue
                         res.append(st)
                     return res
                 m.body = rewrite([E().visit(st) for st in m.body])
-        for m in [x for x in cls.body if isinstance(x, FUNCS)]:
+        for m in owner_funcs:
+            unroll_literal_loops(m)
             copy_propagate(m)
+
+    for cls in [n for n in ast.walk(tree) if isinstance(n, ast.ClassDef)]:
+        meths = {m.name: m for m in cls.body if isinstance(m, FUNCS)}
+        process(list(meths.values()), meths)
+        # a private method that is not referenced any more (every call was replaced by its body) is dropped: what it does
+        # is now counted once, where it is done
+        for nm in [k for k in meths if k.startswith("_") and not k.startswith("__")]:
+            refs = [x for m_ in cls.body if not (isinstance(m_, FUNCS) and m_.name == nm) for x in ast.walk(m_)
+                    if isinstance(x, ast.Attribute) and x.attr == nm and isinstance(x.value, ast.Name) and x.value.id == "self"]
+            if not refs and (_guard_like(meths[nm]) or _procedure_like(meths[nm]) or _value_helper(meths[nm], True) or len(_body_sans_doc(meths[nm])) == 1):
+                cls.body = [m_ for m_ in cls.body if m_ is not meths[nm]]
+    process([f for f in tree.body if isinstance(f, FUNCS)], {})
+    return inlined_private
+
+
+def renumber(tree):
+    """After inlining, several statements share the line of the call they replaced; the flow rules order definitions and uses
+    by line.  Every statement gets its own line number in execution (source) order - original numbers are kept in
+    `_orig_lineno` for reporting - and the nodes inside a statement take the statement's number."""
+    counter = [0]
+
+    def stmt_list(stmts):
+        for st in stmts:
+            counter[0] += 1
+            new = counter[0]
+            orig = getattr(st, "_orig_lineno", getattr(st, "lineno", 0))
+            for x in ast.walk(st) if not isinstance(st, FUNCS + (ast.ClassDef, ast.If, ast.For, ast.While, ast.With, ast.Try)) else [st] + [y for f_ in ("test", "iter", "target", "items", "args", "decorator_list", "bases") for z in ([getattr(st, f_)] if isinstance(getattr(st, f_, None), ast.AST) else getattr(st, f_, []) or []) for y in ast.walk(z)]:
+                if hasattr(x, "lineno") or isinstance(x, (ast.expr, ast.stmt)):
+                    if not hasattr(x, "_orig_lineno"):
+                        x._orig_lineno = getattr(x, "lineno", orig)
+                    x.lineno = new
+                    x.end_lineno = new
+            for fld in ("body", "orelse", "finalbody", "handlers"):
+                sub = getattr(st, fld, None)
+                if isinstance(sub, list) and sub and isinstance(sub[0], ast.AST):
+                    if fld == "handlers":
+                        for h in sub:
+                            stmt_list(h.body)
+                    else:
+                        stmt_list(sub)
+            st.end_lineno = counter[0]
+    stmt_list(tree.body)
+
+
+def relink_parents(tree):
     for node in ast.walk(tree):
         for ch in ast.iter_child_nodes(node):
             ch._parent = node
@@ -270,11 +473,25 @@ class Ctx:
     def __init__(self, w, rep):
         self.fe, self.rep = w.fe, rep
         self._flow, self._loc = {}, {}
-        for rel in (UROS, MSGS, EST):
-            sf = self.fe.get(rel)
-            if sf is not None and not getattr(sf, "_helpers_normalised", False):
-                normalise_helpers(sf.tree)
+        sfs = [sf for sf in (self.fe.get(rel) for rel in (UROS, MSGS, EST)) if sf is not None]
+        if any(not getattr(sf, "_helpers_normalised", False) for sf in sfs):
+            # module-level helper functions of the bus files (uros.update_params(...), _register_subscriber(core, sub)) are
+            # inlined like private methods; the inlined private ones are then dropped, so that what they did counts once, at
+            # the place it is done
+            mod_funcs = {f.name: f for sf in sfs for f in sf.tree.body if isinstance(f, FUNCS)}
+            nt = _namedtuple_fields([sf.tree for sf in sfs])
+            gone = set()
+            for sf in sfs:
+                gone |= normalise_helpers(sf.tree, mod_funcs, ("uros", "msgs"), nt)
                 sf._helpers_normalised = True
+            for sf in sfs:
+                still = {x.func.id if isinstance(x.func, ast.Name) else x.func.attr for x in ast.walk(sf.tree) if isinstance(x, ast.Call) and isinstance(x.func, (ast.Name, ast.Attribute))
+                         and enclosing_function(x) is not None and enclosing_function(x).name not in gone}
+                gone -= still
+            for sf in sfs:
+                sf.tree.body = [st for st in sf.tree.body if not (isinstance(st, FUNCS) and st.name in gone)]
+                renumber(sf.tree)
+                relink_parents(sf.tree)
 
     def flow(self, fn):
         if id(fn) not in self._flow:
@@ -296,7 +513,7 @@ class Ctx:
         return [(rel, sf) for rel, sf in sorted(self.fe.files.items()) if rel in (UROS, MSGS) or "uros" in sf.text]
 
     def where(self, rel, node):
-        return (rel, getattr(node, "lineno", 0))
+        return (rel, getattr(node, "_orig_lineno", getattr(node, "lineno", 0)))
 
 
 def params_of(fn):
@@ -1303,7 +1520,7 @@ def rule_estimator(cx, ptable):
     dt_arg = None
     for a in pcall.args:
         d = loc.defs.get(a.id) if isinstance(a, ast.Name) else None
-        dl = linform(loc.inline(d.value, d.lineno) if d is not None else loc.inline(a, a.lineno))
+        dl = linform(loc.inline(d.value, d.lineno, at_def=True) if d is not None else loc.inline(a, a.lineno))
         last = [x for x, c in dl.items() if c == -1.0 and x and x.startswith("self.")]
         if dl.get(tkey) == 1.0 and len(dl) == 2 and len(last) == 1:
             dt_arg = (a, d, last[0])
@@ -1357,7 +1574,10 @@ def rule_estimator(cx, ptable):
         if d is None:
             rep.incomplete(R_P, I3, "the time step is computed inside the call; ordering against the time-stamp update is not analysed", where=cx.where(rel, pcall))
         else:
-            ups = [e for e in stamp_updates(cx, fn, last, tkey) if id(d) in e.done and id(e.node) in pev.done]
+            d0 = d
+            while isinstance(d0.value, ast.Name) and d0.value.id in loc.defs:      # dt = a; a = t - self.last : the step is computed at a's definition
+                d0 = loc.defs[d0.value.id]
+            ups = [e for e in stamp_updates(cx, fn, last, tkey) if id(d0) in e.done and id(e.node) in pev.done]
             others = [b for b in self_assigns(cls, last[5:]) if enclosing_function(b).name != "__init__" and b not in [e.node for e in ups]]
             if ups and others:
                 rep.incomplete(R_P, I3, "%s is also assigned by `%s`, which the rule does not model" % (last, unp(others[0])), where=cx.where(rel, others[0]))
@@ -1396,7 +1616,7 @@ def rule_estimator(cx, ptable):
                     d = loc.defs.get(nm.id)
                     if d is None:
                         continue
-                    lf = linform(loc.inline(d.value, d.lineno))
+                    lf = linform(loc.inline(d.value, d.lineno, at_def=True))
                     As = [a for a, c in lf.items() if a and a.startswith("self.") and "t_last" in a and c == -1.0]
                     if lf.get(tkey) == 1.0 and len(As) == 1:
                         for e in stamp_updates(cx, fn, As[0], tkey):
